@@ -254,8 +254,9 @@ func Run(body func(), prefix []int, widths []int, cfg Config) *Result {
 	go world.threadMain(t, body, true)
 	// watchdog: code under test that loops (or allocates) without ever reaching
 	// a scheduling point cannot be stopped by the scheduler. Normal executions
-	// take well under a millisecond; after StuckAfter of wall-clock time, or
-	// MemLimit of heap, the process reports the execution as a livelock.
+	// take well under a millisecond; after StuckAfter of wall-clock time since the
+	// last scheduling step, or MemLimit of heap with no step for 4 s, the process
+	// reports the execution as a livelock.
 	stop := make(chan struct{})
 	go func() {
 		tk := time.NewTicker(2 * time.Second)
@@ -269,7 +270,9 @@ func Run(body func(), prefix []int, widths []int, cfg Config) *Result {
 				var ms runtime.MemStats
 				runtime.ReadMemStats(&ms)
 				since := time.Duration(time.Now().UnixNano() - atomic.LoadInt64(&world.beat))
-				if since > StuckAfter || ms.HeapAlloc > MemLimit {
+				// the heap limit only applies to code that is not reaching scheduling points any more (a
+				// harness that enumerates inside one execution and yields may legitimately hold more)
+				if since > StuckAfter || (ms.HeapAlloc > MemLimit && since > 4*time.Second) {
 					reason := fmt.Sprintf("livelock: the code under test ran for %v (heap %d MB) without reaching a scheduling point", since.Round(time.Second), ms.HeapAlloc>>20)
 					choices := make([]int, 0, len(world.trace))
 					for _, p := range world.trace {
